@@ -95,3 +95,48 @@ extern "C" void AnnotateIgnoreWritesEnd(const char*, int) {}
 extern "C" void AnnotateNewMemory(const char*, int, const volatile void*, long) {}
 extern "C" void AnnotateHappensBefore(const char*, int, const volatile void*) {}
 extern "C" void AnnotateHappensAfter(const char*, int, const volatile void*) {}
+
+// ---------------------------------------------------------------------------------------------
+// "fine" variants: the tsan pass also instruments plain memory accesses; each access made by code
+// under test (not by harness or C++ standard library code: classified by the caller's symbol) is a
+// simulation point too, so windows that open or close at a non-atomic access become explorable.
+// ---------------------------------------------------------------------------------------------
+#define PLAIN_R(name) \
+  extern "C" void name(void* a) { sim_plain_point(__builtin_return_address(0), a, 0); }
+#define PLAIN_W(name) \
+  extern "C" void name(void* a) { sim_plain_point(__builtin_return_address(0), a, 1); }
+PLAIN_R(__tsan_read1)
+PLAIN_R(__tsan_read2)
+PLAIN_R(__tsan_read4)
+PLAIN_R(__tsan_read8)
+PLAIN_R(__tsan_read16)
+PLAIN_W(__tsan_write1)
+PLAIN_W(__tsan_write2)
+PLAIN_W(__tsan_write4)
+PLAIN_W(__tsan_write8)
+PLAIN_W(__tsan_write16)
+PLAIN_R(__tsan_unaligned_read2)
+PLAIN_R(__tsan_unaligned_read4)
+PLAIN_R(__tsan_unaligned_read8)
+PLAIN_R(__tsan_unaligned_read16)
+PLAIN_W(__tsan_unaligned_write2)
+PLAIN_W(__tsan_unaligned_write4)
+PLAIN_W(__tsan_unaligned_write8)
+PLAIN_W(__tsan_unaligned_write16)
+PLAIN_W(__tsan_read_write1)
+PLAIN_W(__tsan_read_write2)
+PLAIN_W(__tsan_read_write4)
+PLAIN_W(__tsan_read_write8)
+PLAIN_W(__tsan_read_write16)
+PLAIN_R(__tsan_vptr_read)
+extern "C" void __tsan_vptr_update(void** a, void*) {
+  sim_plain_point(__builtin_return_address(0), a, 1);
+}
+extern "C" void __tsan_read_range(void* a, unsigned long) {
+  sim_plain_point(__builtin_return_address(0), a, 0);
+}
+extern "C" void __tsan_write_range(void* a, unsigned long) {
+  sim_plain_point(__builtin_return_address(0), a, 1);
+}
+extern "C" void __tsan_func_entry(void*) {}
+extern "C" void __tsan_func_exit() {}
